@@ -647,3 +647,96 @@ func sigTextualPrefix(c fw.Case, out []string, msg string) bool {
 	}
 	return len(monitorWith(c, out, textualPrefix)) == 0
 }
+
+// ---------------------------------------------------------------------------------------------
+// the preconditions of the Lean theorem C18_flatten_build, re-implemented in Go from their
+// definitions in OnosVerif/Tree/Spec.lean; compared with the twin's own evaluation (tree.domain),
+// so that the domain the theorem speaks about is the domain this harness thinks it is.
+
+func nameSimple(s string) bool {
+	return s != "" && !strings.ContainsAny(s, "/\\[]=")
+}
+
+func keyValSimple(s string) bool {
+	return s != "" && !strings.ContainsAny(s, "]\\/")
+}
+
+func compatElems(a, b []*pb.PathElem) bool {
+	for {
+		if len(a) == 0 || len(b) == 0 {
+			return false
+		}
+		if elemText(a[0]) == elemText(b[0]) && a[0].Name == b[0].Name && len(a[0].Key) == len(b[0].Key) {
+			a, b = a[1:], b[1:]
+			continue
+		}
+		return a[0].Name != b[0].Name || sameStrings(keyNames(a[0]), keyNames(b[0]))
+	}
+}
+
+func theoremDomain(S []PV, rfc bool) bool {
+	seen := map[string]bool{}
+	for _, p := range S {
+		if seen[p.Path] {
+			return false
+		}
+		seen[p.Path] = true
+	}
+	var live []PV
+	for _, p := range sortedByPath(S) {
+		if p.Deleted && p.Path != "" {
+			continue
+		}
+		covered := false
+		for _, d := range S {
+			if d.Deleted && d.Path != "" && d.Path != p.Path && strings.HasPrefix(p.Path, d.Path) {
+				covered = true
+			}
+		}
+		if !covered {
+			live = append(live, p)
+		}
+	}
+	elems := make([][]*pb.PathElem, len(live))
+	for i, p := range live {
+		if p.Deleted { // a deleted empty path survives pruning; the theorem's entries are not deleted
+			return false
+		}
+		es, ok := parseElems(p.Path)
+		if !ok || len(es) == 0 || utils.StrPathElem(es) != p.Path {
+			return false
+		}
+		for _, e := range es {
+			if !nameSimple(e.Name) {
+				return false
+			}
+			for k, v := range e.Key {
+				if !nameSimple(k) || !keyValSimple(v) {
+					return false
+				}
+			}
+		}
+		if len(es[len(es)-1].Key) > 0 {
+			return false
+		}
+		for j := 0; j+1 < len(es); j++ {
+			if kv, isKey := es[j].Key[es[j+1].Name]; isKey {
+				if j+1 != len(es)-1 {
+					return false
+				}
+				if p.Kind != 'e' && valText(p) != kv {
+					return false
+				}
+			}
+		}
+		elems[i] = es
+	}
+	for i := range live {
+		for j := i + 1; j < len(live); j++ {
+			if !compatElems(elems[i], elems[j]) {
+				return false
+			}
+		}
+	}
+	return uniformKeys(live)
+}
